@@ -10,7 +10,7 @@ from checks.tcpcl_common import *
 MANIFEST = {'text': 'Bounded symbolic model checking: the octet streams written by both real endpoints (symbolic lengths/sizes/MRUs, optional terminate() at several points) are parsed by an independent RFC 9174 decoder and every sequencing rule is an obligation discharged by z3 per path.', 'note': 'Trusted: engine, stand-ins, the independent decoder/automaton (vf/oracle/rfc9174.py), z3. Bounds as C01 plus the set of termination points.', 'ref': '5 C04'}
 BOUNDS = {
     'quick': dict(bundles='A->B in {1,2}, B->A in {0,1}', segments_per_bundle='<= 3 (2 with 3 bundles)',
-                  terminate='none | by A or B: before sends, after 4/8/16 scheduler steps, at the end',
+                  terminate='none | by A, by B or by both at once: before sends, after 4/8/16 scheduler steps, at the end',
                   sched='lowest-source-id-first', chunk='CHUNK_SIZE lifted to 2^72'),
     'thorough': dict(bundles='A->B in {1,2}, B->A in {0,1}', segments_per_bundle='<= 4 (3 with 3 bundles)',
                      terminate='as quick, more positions', sched='plus 1 deviation', chunk='as quick'),
@@ -29,7 +29,7 @@ def cases(tier):
         k = (3 if na + nb <= 2 else 2) if tier == 'quick' else (4 if na + nb <= 2 else 3)
         out.append(dict(na=na, nb=nb, kseg=k, term='none', dev=0))
         if na + nb <= 2:
-            for who in ('A', 'B'):
+            for who in ('A', 'B', 'AB'):
                 out.append(dict(na=na, nb=nb, kseg=2, term=who, dev=0))
     if tier == 'thorough':
         out.append(dict(na=1, nb=1, kseg=2, term='A', dev=1))
@@ -55,10 +55,10 @@ def harness(case, tier):
     if when is not None:
         start = w.steps
         w.run(400, choose_budget=case['dev'], until=lambda: w.steps - start >= when)
-        h = w.a if term == 'A' else w.b
-        if h._in_sess and not h._in_term:
-            h.terminate(3)
-            termed = True
+        for h in ([w.a] if term == 'A' else [w.b] if term == 'B' else [w.a, w.b]):
+            if h._in_sess and not h._in_term:
+                h.terminate(3)
+                termed = True
     w.run(600, choose_budget=case['dev'])
     c.prove(not w.escaped(), 'no-callback-exception', detail=[repr(e) for (_s, e) in w.escaped()])
 
